@@ -63,6 +63,7 @@ type codecEnv struct {
 	nestWalk  bool   // the nesting walk is running
 	encErr    string // kind of the encoder error oracleSlab met last ("" = none)
 	nestRej   bool   // oracleSlab: the register was rejected for its nesting depth
+	encPanic  bool   // EncodeSlab panicked on some slab of the current write set (sticky until the next commit)
 }
 
 func (e *codecEnv) violation(prop, what string) {
@@ -534,6 +535,9 @@ func (e *codecEnv) oracleSlab(s atree.Slab) ([]byte, string) {
 		}
 	}
 	if pan != "" || err != nil {
+		if pan != "" {
+			e.encPanic = true // (the commit of this write set would crash the process: it is skipped)
+		}
 		e.violation("C07", fmt.Sprintf("EncodeSlab failed on %s: %v %s", atree.VerifDumpSlab(s, hx.Describe), err, pan))
 		return nil, ""
 	}
